@@ -113,7 +113,26 @@ Definition same_result (a b : result) : bool :=
   | _, _ => false
   end.
 
+(* Joint-Feldman: "dkgFailureError if the disqualified dealers exceeded the threshold" (more than
+   t disqualified, or not more than t qualified); the disqualified dealers are those reported
+   through the Disqualify callback *)
+Fixpoint dedup (l : list nat) : list nat :=
+  match l with
+  | [] => []
+  | x :: l' => if mem x l' then dedup l' else x :: dedup l'
+  end.
+
+Definition joint_rule (k : sim) (p : part) : bool :=
+  match s_proto k with
+  | 2%N =>
+      let dq := length (dedup (disq_targets p)) in
+      let must_fail := Nat.ltb (s_t k) dq || Nat.leb (s_n k - dq) (s_t k) in
+      Bool.eqb must_fail (negb (is_keysb (end_result p)))
+  | _ => true
+  end.
+
 Definition c07_prop_check (k : sim) : bool :=
+  forallb (joint_rule k) (s_parts k) &&
   match s_proto k with
   | 0%N => true
   | _ =>
